@@ -27,14 +27,16 @@ KIND_RT = {
     "addressbook": {dav.RT_COLLECTION, dav.RT_ADDRESSBOOK},
     "plain": {dav.RT_COLLECTION},
     "inbox": {dav.RT_COLLECTION, dav.RT_INBOX},
+    "subscription": {dav.RT_COLLECTION, dav.RT_SUBSCRIBED},
 }
-STORE_KIND = {"calendar": "calendar", "addressbook": "addressbook", "plain": "other", "inbox": "schedule-inbox"}
+STORE_KIND = {"calendar": "calendar", "addressbook": "addressbook", "plain": "other", "inbox": "schedule-inbox", "subscription": "subscription"}
 
 PROPS_FOR_KIND = {
     "calendar": [dav.P_DISPLAYNAME, dav.P_COMMENT, dav.P_CAL_COLOR, dav.P_CAL_ORDER, dav.P_CAL_DESC],
     "addressbook": [dav.P_DISPLAYNAME, dav.P_COMMENT, dav.P_AB_DESC, dav.P_AB_COLOR],
     "plain": [dav.P_DISPLAYNAME, dav.P_COMMENT],
     "inbox": [dav.P_DISPLAYNAME, dav.P_COMMENT],
+    "subscription": [dav.P_DISPLAYNAME],
 }
 
 
@@ -125,7 +127,7 @@ DEFAULT_WEIGHTS = {
 PROP_WEIGHTS = {
     "C01": {"put_revert": 3},
     "C02": {"partial": 3, "get": 3, "propfind": 3, "multiget": 3, "query": 2, "sync": 2, "proppatch": 4, "put_over": 12},
-    "C03": {"put_cond": 14, "delete_cond": 8, "get_cond": 6, "put_over": 10, "post": 1, "mkcol": 0.5, "mkcalendar": 0.5},
+    "C03": {"put_cond": 14, "delete_cond": 8, "get_cond": 6, "put_over": 10, "post": 1, "mkcol": 1, "mkcalendar": 1, "delete_coll": 2, "sync": 1.5},
     "C06": {"put_recreate": 6, "put_uidclash": 10, "put_over": 10, "put_new": 10, "delete": 7, "restart": 2, "evict": 3, "mkcol": 0.3, "proppatch": 0.5},
     "C07": {"sync": 16, "put_copy": 4, "put_same": 3, "put_revert": 4, "delete": 12, "put_new": 10, "put_over": 10, "mkcol": 0.3, "put_invalid": 0.5,
             "propfind": 0.3, "get": 0.3, "multiget": 0.3, "query": 0.3, "proppatch": 1, "post": 2},
@@ -168,6 +170,10 @@ def make_config(prop, seed, tier):
         cfg["preseed"].append({"path": "/user/contacts/barebook/", "backend": "bare", "kind": "addressbook"})
     if prop == "C15" and r.random() < 0.5:
         cfg["preseed"].append({"path": "/user/contacts/cfgbook/", "backend": "gitcfg", "kind": "addressbook"})
+    if prop in ("C01", "C08", "C07") and r.random() < 0.25:
+        # two `git init --bare` directories without any commit yet
+        cfg["preseed"].append({"path": "/user/calendars/e0/", "backend": "bare-empty", "kind": "plain"})
+        cfg["preseed"].append({"path": "/user/calendars/e1/", "backend": "bare-empty", "kind": "plain"})
     return cfg
 
 
@@ -259,7 +265,7 @@ class HistRun:
             w.srv.stop()
             for ps in self.cfg["preseed"]:
                 preseed_collection(self.arena.root, ps["path"], ps["backend"], STORE_KIND[ps["kind"]])
-                m.colls[ps["path"]] = MColl(ps["path"], ps["kind"], ps["backend"])
+                m.colls[ps["path"]] = MColl(ps["path"], ps["kind"], "bare" if ps["backend"] == "bare-empty" else ps["backend"])
             FS.active = True
             w.srv.start()
         self.audit(initial=True)
@@ -451,7 +457,7 @@ class HistRun:
 
     def new_name(self, c):
         r = self.rng
-        ext = {"calendar": ".ics", "addressbook": ".vcf", "inbox": ".ics"}.get(c.kind)
+        ext = {"calendar": ".ics", "addressbook": ".vcf", "inbox": ".ics", "subscription": ".ics"}.get(c.kind)
         if ext is None or r.random() < 0.08:
             ext = r.choice([".ics", ".vcf", ".txt", ".txt", ""])
         for _ in range(20):
@@ -480,12 +486,19 @@ class HistRun:
             return gen.vcf(r, uid="card-%d" % self.fresh), "text/vcard"
         return gen.opaque(r), r.choice(["text/plain", "application/octet-stream"])
 
-    def cond_refs(self, relpath, want=None):
+    def cond_refs(self, relpath, want=None, if_match=False):
         """A symbolic validator list for If-Match / If-None-Match."""
         r = self.rng
         hist = self.model.etag_hist.get(relpath, [])
         choices = ["cur", "cur", "stale", "other", "star", "lit_unquoted", "garbage", "list_with_cur", "list_without", "empty"]
+        if if_match:
+            # If-Match compares strongly (RFC 7232 3.1): the current tag marked weak does not match
+            choices = choices + ["weak_cur", "list_with_weak_cur"]
         k = want or r.choice(choices)
+        if k == "weak_cur":
+            return [{"weak": relpath}]
+        if k == "list_with_weak_cur":
+            return [{"lit": '"aaaa"'}, {"weak": relpath}]
         if k == "cur":
             return [{"cur": relpath}]
         if k == "stale":
@@ -601,7 +614,9 @@ class HistRun:
             if name.endswith(".ics") and r.random() < 0.08:
                 uid = "<none>"
             body, ct = self.body_for(name, uid)
-            if self.prop in ("C02", "C17") and name.endswith(".ics") and uid is None and r.random() < 0.12:
+            if r.random() < 0.1 and ct in ("text/calendar", "text/vcard"):
+                ct += r.choice(["; charset=utf-8", ";charset=UTF-8", "; charset=\"utf-8\""])
+            elif self.prop in ("C02", "C17") and name.endswith(".ics") and uid is None and r.random() < 0.12:
                 # `curl -T x.ics`: no calendar media type, so the bytes are stored as they are (not
                 # re-serialised); every view must still serve those bytes under that etag
                 ct = r.choice(["application/octet-stream", "application/octet-stream", "text/plain"])
@@ -667,7 +682,7 @@ class HistRun:
                 which = r.random()
                 cond = {}
                 if which < 0.5:
-                    cond["if_match"] = self.cond_refs(rel)
+                    cond["if_match"] = self.cond_refs(rel, if_match=True)
                 elif which < 0.8:
                     cond["if_none_match"] = self.cond_refs(rel)
                 else:
@@ -706,7 +721,7 @@ class HistRun:
             c, name = pm
             op = {"op": "delete", "path": c.path + name}
             if k == "delete_cond":
-                op["cond"] = {"if_match": self.cond_refs(c.path + name)}
+                op["cond"] = {"if_match": self.cond_refs(c.path + name, if_match=True)}
             return op
         if k == "delete_missing":
             c = self.pick_coll()
@@ -723,7 +738,15 @@ class HistRun:
             if not cs:
                 return None
             c = r.choice(cs)
-            return {"op": "delete", "path": c.path if r.random() < 0.7 else c.path.rstrip("/")}
+            op = {"op": "delete", "path": c.path if r.random() < 0.7 else c.path.rstrip("/")}
+            if self.prop == "C03" and r.random() < 0.6:
+                # a validator that cannot be the collection's: garbage, or an earlier tag of the collection
+                olds = [t["token"] for t in self.tokens.get(c.path, [])][:-1]
+                o = self.obs.get(c.path)
+                olds = [t for t in olds if not (o is not None and o.tags.get("getetag") and t in o.tags.get("getetag"))]
+                lit = '"%s"' % r.choice(olds) if (olds and r.random() < 0.5) else r.choice(['"zzz"', '"0000000000000000000000000000000000000000"'])
+                op["cond"] = {"if_match": [{"lit": lit}]}
+            return op
         if k in ("mkcol", "mkcalendar"):
             parents = [p for p in ("/user/calendars/", "/user/contacts/", "/user/") if p in m.colls]
             parent = r.choice(parents)
@@ -746,7 +769,7 @@ class HistRun:
                 op = {"op": "mkcalendar", "path": path, "props": []}
                 kind = "calendar"
             else:
-                kind = r.choice(["plain", "calendar", "addressbook"])
+                kind = r.choice(["plain", "calendar", "addressbook", "plain", "calendar", "addressbook", "subscription"])
                 op = {"op": "mkcol", "path": path, "kind": kind, "props": []}
             if r.random() < 0.6:
                 op["props"] = self.gen_prop_sets(kind, "tree", r.randint(1, 3))
@@ -851,6 +874,8 @@ class HistRun:
                 name = self.new_name(c)
             if not name.endswith(ext):
                 return None
+            if r.random() < 0.3:
+                ct += r.choice(["; charset=utf-8", ";charset=UTF-8", "; component=VEVENT"])
             return {"op": "put", "coll": c.path, "name": name, "body": b2s(body), "ctype": ct, "invalid": cls}
         if k == "put_cut":
             if self.cfg.get("frontend") != "aiohttp" or not self.cfg.get("faults", True):
@@ -965,6 +990,8 @@ class HistRun:
                 vals.append(ref["lit"])
             elif "cur" in ref:
                 vals.append(self.current_etag(ref["cur"]) or '"none"')
+            elif "weak" in ref:
+                vals.append("W/" + (self.current_etag(ref["weak"]) or '"none"'))
             elif "cur_unquoted" in ref:
                 vals.append((self.current_etag(ref["cur_unquoted"]) or '"none"').strip('"'))
             elif "old" in ref:
@@ -1076,6 +1103,11 @@ class HistRun:
                 self.count("fault.io_error_" + fault["errno"].lower())
                 if ctx is not None:
                     ctx["io_fault"] = True
+                    if (ctx.get("status") or 0) >= 500 and kind in ("put", "post", "delete") and self.replay_ops is None and self.frng.random() < 0.6:
+                        # the client retries the same request once the storage works again
+                        retry = {k_: v_ for k_, v_ in op.items() if k_ not in ("fault", "read_fault", "salt", "chunks")}
+                        self.queue = [retry] + list(getattr(self, "queue", None) or [])
+                        self.count("retries_after_failed_write")
                 FS.err_fired = []
         # audit after every step
         after = self.audit()
@@ -1249,7 +1281,8 @@ class HistRun:
         if kind == "plain" and not props:
             body, ctype = b"", None
         else:
-            rts = {"plain": [dav.RT_COLLECTION], "calendar": [dav.RT_COLLECTION, dav.RT_CALENDAR], "addressbook": [dav.RT_COLLECTION, dav.RT_ADDRESSBOOK]}[kind]
+            rts = {"plain": [dav.RT_COLLECTION], "calendar": [dav.RT_COLLECTION, dav.RT_CALENDAR], "addressbook": [dav.RT_COLLECTION, dav.RT_ADDRESSBOOK],
+                   "subscription": [dav.RT_COLLECTION, dav.RT_SUBSCRIBED]}[kind]
             body, ctype = dav.mkcol_body(rts, props), "text/xml; charset=utf-8"
         ctx, cpath, r, st = self._mk_common(op, "MKCOL", body, ctype)
         if st == 201:
